@@ -29,7 +29,7 @@ PROPS = {
                   "renormalised linear fixed point (HMM.tla), model-checked by TLC on dyadic tables; implementation outputs "
                   "for all observation sequences validated by TLC against the enumerated posterior, Hoeffding clause in "
                   "integer arithmetic",
-        text="Configurations N in {2,3} (thorough: N <= 5) x adjacency truncations {0,1} (thorough also 2) x several variances, every observation "
+        text="Configurations N in {2,3} (thorough: N <= 5) x adjacency truncations {0,1,2} incl. one above N/2 where the circulant transition table is not symmetric (thorough: up to 3, asymmetric transition and observation tables) x several variances, every observation "
              "sequence of length <= 3 (thorough <= 4): exp(estimate_logpdf(z)) = W(z)/sum W for every latent sequence z (2 %), "
              "exp(data_logpdf) = sum_z W(z), random_weighted's weight = estimate_logpdf of the returned sequence, and the empirical "
              "distribution of 4096 random_weighted / forward_filtering_backward_sampling draws lies within the Hoeffding band "
@@ -65,6 +65,7 @@ def _fx(x):
 def _configs(tier):
     quick = [
         (3, 1, 1, 0.5, 0.8), (3, 0, 1, 1.5, 0.4), (3, 1, 0, 0.3, 2.0), (2, 0, 0, 0.9, 1.3),
+        (3, 2, 1, 2.0, 0.8),      # truncation above N/2: the circulant transition table is NOT symmetric
     ]
     if tier == "quick":
         return quick
@@ -74,7 +75,8 @@ def _configs(tier):
             for ko in (0, 1):
                 for st, so in ((0.25, 1.0), (2.0, 0.5), (1.0, 3.0)):
                     more.append((N, kt, ko, st, so))
-    more += [(4, 2, 1, 0.5, 0.8), (4, 1, 2, 1.2, 0.4), (5, 2, 2, 0.6, 0.9)]
+    more += [(4, 3, 1, 1.5, 0.8), (3, 1, 2, 0.7, 1.6), (4, 3, 3, 0.4, 1.4),     # asymmetric transition / observation / both
+             (4, 2, 1, 0.5, 0.8), (4, 1, 2, 1.2, 0.4), (5, 2, 2, 0.6, 0.9)]
     return quick + more
 
 
@@ -332,6 +334,6 @@ def run(prop_id, tier, seed, replay=None):
     rep.assumptions = [
         "input tables pi, A, B are the float64 softmax of config.transition_tensor() / observation_tensor(); pi is row N/2 of A",
         "TLA+ arithmetic is 15-bit soft float; clauses use 2 % relative tolerance",
-        "sigma > 0 and adjacency distance <= N/2 (symmetric circulant tables); DiscreteHMMConfiguration fields must be jnp arrays",
+        "sigma > 0; adjacency distances on both sides of N/2 (symmetric and asymmetric circulant tables); DiscreteHMMConfiguration fields must be jnp arrays",
     ]
     return rep.finish()
